@@ -1444,3 +1444,134 @@ def run_c08(ctx: kernel.Ctx, case: Dict[str, Any]) -> None:
 
 
 RUNNERS.update({"C07": (gen_c07, run_c07), "C08": (gen_c08, run_c08)})
+
+
+# ==================================================================================================
+# C19  neural bandits: exact inverse of the regularised Gram matrix
+# ==================================================================================================
+def gen_c19(rng: random.Random, tier: str) -> Dict[str, Any]:
+    cfg = A.gen_agent_cfg(rng, algo=rng.choice(["NeuralUCB", "NeuralTS"]))
+    if cfg["hp"] == "shared":
+        cfg["hp"] = "private"
+    ops = []
+    for _ in range(rng.randint(3, 14 if tier == "quick" else 40)):
+        x = rng.random()
+        s = rng.getrandbits(31)
+        if x < 0.55:
+            ops.append({"op": "decide", "seed": s, "mask": rng.choice([None, None, [1, 0, 1], [0, 0, 1], [1, 1, 0]])})
+        elif x < 0.7:
+            ops.append({"op": "learn", "seed": s, "k": rng.choice([1, 2])})
+        elif x < 0.82:
+            ops.append({"op": "mutate", "kind": rng.choice(MUT_KINDS), "seed": s})
+        elif x < 0.91:
+            ops.append({"op": "clone", "seed": s})
+        else:
+            ops.append({"op": "save_restore", "path": rng.choice(["load", "load_checkpoint"]), "seed": s})
+    return {"engine": "world", "prop": "C19", "cfg": cfg, "cfg_seed": rng.getrandbits(31), "ops": ops}
+
+
+def _bandit_features(ag, obs) -> torch.Tensor:
+    """Per-arm gradient features of the current output layer, computed independently with autograd.grad."""
+    x = ag.preprocess_observation(obs)
+    layer = ag.actor.get_output_dense()
+    params = [p for p in layer.parameters() if p.requires_grad]
+    mu = ag.actor(x)
+    rows = []
+    for k in range(mu.shape[0]):
+        gs = torch.autograd.grad(mu[k].sum(), params, retain_graph=True, allow_unused=True)
+        rows.append(torch.cat([(g if g is not None else torch.zeros_like(p)).detach().flatten() for g, p in zip(gs, params)]) / float(np.sqrt(layer.weight.size(0))))
+    return torch.stack(rows).double()
+
+
+def run_c19(ctx: kernel.Ctx, case: Dict[str, Any]) -> None:
+    w = World(ctx, case)
+    cfg = w.cfg
+    hp = A.hp_config(cfg) if cfg["hp"] != "none" else None
+    ag = A.make_agent(cfg, index=0, hp=hp, seed=kernel.derive(case["cfg_seed"], "subject"))
+    lamb = float(ag.lamb)
+
+    def numel_now(a) -> int:
+        return sum(p.numel() for p in a.actor.get_output_dense().parameters() if p.requires_grad)
+
+    def check_shape(a, when: str) -> bool:
+        n = numel_now(a)
+        ok = True
+        if tuple(a.sigma_inv.shape) != (n, n):
+            ctx.report("C19/size", f"{when}: sigma_inv has shape {tuple(a.sigma_inv.shape)}, the output layer has {n} parameters", **w.loc)
+            ok = False
+        if a.exp_layer is not a.actor.get_output_dense():
+            ctx.report("C19/exp_layer_detached", f"{when}: exp_layer is not the actor's output layer", **w.loc)
+            ok = False
+        return ok
+
+    def check_init(a, when: str) -> None:
+        n = numel_now(a)
+        want = torch.eye(n, dtype=torch.float64) / lamb
+        if tuple(a.sigma_inv.shape) == (n, n) and not torch.allclose(a.sigma_inv.double(), want, atol=1e-7):
+            d = float(a.sigma_inv[0, 0])
+            ctx.report("C19/init_not_inverse", f"{when}: freshly initialised confidence matrix has diagonal {d!r}; inverse of lambda*I with lambda={lamb} is {1.0 / lamb!r}*I", **w.loc)
+
+    check_shape(ag, "after construction")
+    check_init(ag, "after construction")
+    Z = torch.linalg.inv(ag.sigma_inv.double())  # the model restarts from whatever was initialised (reported above if wrong)
+    n_dec = 0
+    for oi, op in enumerate(case["ops"]):
+        ctx.op_index = oi
+        ctx.steps += 1
+        k = op["op"]
+        if k == "decide":
+            obs, _ = A.probe_inputs(cfg, op["seed"])
+            mask = np.asarray(op["mask"]) if op.get("mask") else None
+            G = _bandit_features(ag, obs)
+            seed_all(op["seed"])
+            a = int(ag.get_action(obs, action_mask=mask))
+            n_dec += 1
+            ctx.log("bandit", "decide", {"arm": a})
+            if mask is not None and mask[a] == 0:
+                ctx.probe("masked_arm_chosen")
+            Z = Z + torch.outer(G[a], G[a])
+            if not check_shape(ag, f"op {oi} decide"):
+                break
+            S = ag.sigma_inv.double()
+            n = S.shape[0]
+            err = float((S @ Z - torch.eye(n, dtype=torch.float64)).abs().max())
+            if err > 5e-3:
+                ctx.report("C19/not_inverse", f"op {oi} (decision {n_dec}, arm {a}): |sigma_inv @ (lambda I + sum g g^T) - I|_max = {err:.3e}", **w.loc)
+                Z = torch.linalg.inv(S)
+            asym = float((S - S.T).abs().max()) / max(1e-12, float(S.abs().max()))
+            if asym > 1e-4:
+                ctx.report("C19/not_symmetric", f"op {oi}: relative asymmetry {asym:.3e}", **w.loc)
+            ev = torch.linalg.eigvalsh((S + S.T) / 2)
+            if float(ev.min()) <= 0:
+                ctx.report("C19/not_positive_definite", f"op {oi}: smallest eigenvalue {float(ev.min()):.3e}", **w.loc)
+            bonus = torch.einsum("ki,ij,kj->k", G, S, G)
+            if float(bonus.min()) < -1e-9:
+                ctx.report("C19/negative_bonus", f"op {oi}: exploration bonus g S g^T = {bonus.tolist()}", **w.loc)
+        else:
+            before = ag.sigma_inv.clone()
+            if k == "learn":
+                w.op_learn(ag, op["seed"], "mixed", op.get("k", 1))
+            elif k == "mutate":
+                ag = w.op_mutate([ag], {op["kind"]: 1.0}, op["seed"])[1][0]
+                ctx.probe(f"mutate_{op['kind']}")
+            elif k == "clone":
+                seed_all(op["seed"])
+                ag = ag.clone()
+            elif k == "save_restore":
+                data = w.save_bytes(ag)
+                ag = restore(w, ag, data, op["path"], case)
+                ctx.fault("crash_restore")
+            ctx.log("bandit", k, {"mut": str(getattr(ag, "mut", None))})
+            if not check_shape(ag, f"op {oi} {k}"):
+                break
+            same = before.shape == ag.sigma_inv.shape and torch.equal(before, ag.sigma_inv)
+            if not same:
+                # re-initialised: must be the inverse of lambda*I of the right size; the model restarts
+                check_init(ag, f"op {oi} {k}{':' + op['kind'] if k == 'mutate' else ''} (matrix re-initialised)")
+                Z = torch.linalg.inv(ag.sigma_inv.double())
+                ctx.probe("matrix_reinitialised")
+        ctx.state((cfg["algo"], cfg["obs"], k, min(n_dec, 5), lamb))
+    ctx.nontrivial = n_dec >= 2
+
+
+RUNNERS.update({"C19": (gen_c19, run_c19)})
